@@ -367,10 +367,53 @@ def generated_glue(ctx):
             ctx.disagreement("generated-glue:" + bad[:200], rep)
 
 
+def layouts(ctx):
+    """the array-taking solvers accept a consistent initial condition whatever its memory layout: the same 2-D tables
+    as C-ordered arrays, Fortran-ordered arrays, transposes of the transposed table and windows into a larger
+    pre-allocated table must all be accepted and give the same solution"""
+    import c19
+    for k in range(ctx.scale(6, 30)):
+        calls = c19.direct_calls(ctx, kind=odes.KINDS[k % len(odes.KINDS)])
+        for name, f, args, kwargs in calls:
+            if not any(isinstance(a, np.ndarray) and a.ndim == 2 for a in list(args) + list(kwargs.values())):
+                continue
+            try:
+                base = f(*args, **kwargs)
+            except Exception:
+                continue            # the C-ordered call is C06's / C19's business elsewhere
+            for layout in ("fortran", "transposed", "window"):
+                def conv(a):
+                    if not (isinstance(a, np.ndarray) and a.ndim == 2):
+                        return a
+                    if layout == "fortran":
+                        return np.asfortranarray(a)
+                    if layout == "transposed":
+                        return np.ascontiguousarray(a.T).T
+                    big = np.zeros((a.shape[0] + 2, a.shape[1] + 3), dtype=a.dtype)
+                    big[1:1 + a.shape[0], 2:2 + a.shape[1]] = a
+                    return big[1:1 + a.shape[0], 2:2 + a.shape[1]]
+                a2 = tuple(conv(a) for a in args)
+                k2 = {kk: conv(v) for kk, v in kwargs.items()}
+                rep = dict(entry=name, stream="layout", layout=layout)
+                ctx.case(dict(rep, k=k), nontrivial=True)
+                ctx.count("layout:%s" % layout)
+                try:
+                    res = f(*a2, **k2)
+                except Exception as ex:
+                    ctx.violation("%s rejects a consistent initial condition given as a %s array: %s" % (name, layout, type(ex).__name__),
+                                  dict(rep, error=err_enum(ex), message=str(ex)[:120]))
+                    continue
+                same = len(res) == len(base) and all(np.allclose(np.asarray(x, dtype=float), np.asarray(y, dtype=float), rtol=1e-9, atol=1e-9, equal_nan=True)
+                                                     for x, y in zip(res, base))
+                if not same:
+                    ctx.violation("%s: the solution depends on the memory layout of the initial condition (%s)" % (name, layout), rep)
+
+
 def run(ctx):
     drv = common.LeanDriver()
     generated_initcond(ctx)
     generated_glue(ctx)
+    layouts(ctx)
     probe_known(ctx)
     probe_known2(ctx)
     probe_known3(ctx)
